@@ -490,7 +490,7 @@ def load_corpus():
 
 def _mutate_tokens(rng, toks):
     toks = list(toks)
-    alphabet = ["lp", "rp", "lb", "rb", "cm", "pl", "mi", "ti", "at", "st", "sl", "ba", "am", "P", "Sum", "One",
+    alphabet = ["lp", "rp", "lb", "rb", "cm", "pl", "mi", "ti", "at", "st", "sl", "ba", "am", "P", "Sum", "One", "PP", "TARGET_DOMAIN",
                 str(PC.name_to_int("A")), str(PC.name_to_int("B"))]
     for _ in range(rng.choice([0, 1, 1, 2, 3])):
         r = rng.random()
